@@ -16,7 +16,8 @@ RULE = (
     "triples over 54 operator kinds) in rotating contexts, every derivation sequence of length <= 2 of the C03 enumeration in "
     "11 contexts, every depth-1 (quick) / depth-2 (thorough) statement tree and every switch body with <= 3 items of the C05 "
     "enumeration; (b) Hypothesis-generated complete translation units from the C01-C05 generators; (c) the repository's "
-    "preprocessed C corpus and the corner catalogue; (d) accepted token-mutants of (c); (e) accepted inputs of coverage-guided campaigns (atheris/libFuzzer, parser and generator "
+    "preprocessed C corpus and the corner catalogue; (d) accepted token-mutants of (c); string literals (plain, L, u8) whose length is close to 127 / 255 / 509 / 1023 (also 31, 63, 4095 in the thorough tier) "
+    "with eight kinds of escape sequence on every offset around the limit, and identifiers, constants and lists of those sizes; (e) accepted inputs of coverage-guided campaigns (atheris/libFuzzer, parser and generator "
     "instrumented, the round trip inside the target) and of the committed fuzz corpus. Each x reduce_parentheses in "
     "{False, True}. Oracle: generated text parses, second AST equals the first in every class/attribute/child (coordinates "
     "aside), generating from the second AST reproduces the text. Non-trivial: a program that contributes a (parent class, "
@@ -253,6 +254,39 @@ def mutant_shard(arg):
     return st
 
 
+LIMITS = [31, 63, 127, 255, 509, 1023, 4095]  # translation limits and other numbers a "portable output" feature might use
+LONG_ESCAPES = ["\\\\", "\\n", "\\\"", "\\x41", "\\101", "\\\\\\\\", "%", "\\?"]
+
+
+def long_literal_shard(arg):
+    """String literals whose length is close to a classic limit, with an escape
+    sequence placed on every offset around that limit; identifiers, integer
+    constants and initializer lists of such sizes as well."""
+    limit, = arg
+    st = Stats()
+    seen = set()
+    for pre in ("", "L", "u8"):
+        for esc in LONG_ESCAPES:
+            for off in range(limit - 4, limit + 3):
+                for tail in (0, 5, limit):
+                    body = "a" * max(off, 0) + esc + "b" * tail
+                    src = "typedef int T; const void *s = %s\"%s\"; void f(void) { g(%s\"%s\" %s\"z\"); }" % (pre, body, pre, body, pre)
+                    try:
+                        rt_text(src, st, "unit", ("text", src), seen)
+                    except CheckFailure as f:
+                        st.failures.append(f.failure)
+                        if len(st.failures) > 5:
+                            return st
+                    st.nontrivial += 1
+    for n in range(limit - 2, limit + 3):
+        for src in ("int %s = 1; int y = %s + 1;" % ("i" * n, "i" * n), "int a[] = { %s };" % ", ".join(["1"] * n), "int v = %s;" % ("1" + "0" * (n - 1)), "void f(void) { g(%s); }" % ", ".join(["a"] * n), "enum E { %s };" % ", ".join("K%d" % i for i in range(n))):
+            try:
+                rt_text("typedef int T; " + src, st, "unit", ("text", "typedef int T; " + src), seen)
+            except CheckFailure as f:
+                st.failures.append(f.failure)
+    return st
+
+
 def fuzz_shard(arg):
     """Coverage-guided campaign (atheris/libFuzzer; the generator is
     instrumented too) with the round trip inside the target; every bucket is
@@ -314,6 +348,7 @@ def run(ctx):
         ncorp = len(json.load(open(cj)))
         step = max(1, (ncorp + 15) // 16)
         ctx.map(fuzz_replay_shard, [(ctx.here, lo, lo + step) for lo in range(0, ncorp, step)])
+    ctx.map(long_literal_shard, [(l,) for l in (LIMITS if not ctx.quick else LIMITS[2:6])])
     ctx.map(fuzz_shard, campaign_args(ctx, 4, 20, 8000, 80000, 7))
     ctx.exhaustive = True
     ctx.extra["exhaustive_bounds"] = "2-operator expression trees; derivation sequences <= %d x 11 contexts; statement trees depth <= %d; switch bodies <= 3 items" % (nd, sd)
